@@ -19,7 +19,7 @@ ASSUMPTIONS = ["the slew limit per sample is v_per_sec*fs in data units (the fun
                "limit' case is not asserted (property: exceed; code: >=)",
                "exact-zero of the mute on a flagged sample is asserted to 1e-9 (FFT-based convolution may leave 1e-16)"]
 REQUIRED = {"contract:saturation_post": 300, "flags_compared": 300, "mute_zero_checked": 100, "same_flags_same_mute": 20,
-            "boundary_at_threshold": 50, "reader_ranges_checked": 16, "pipeline_runs": 2}
+            "boundary_at_threshold": 50, "reader_ranges_checked": 16, "pipeline_runs": 2, "slew_only_twins": 20}
 CASE_TIMEOUT = 120.0
 
 _VIOL = []
@@ -367,6 +367,27 @@ def run_case(case):
                           counter="same_flags_same_mute")
             except Exception as e:
                 res.exception("saturation:exception", e, "twin")
+            # third array: the SAME flags produced by the slew criterion alone (small amplitudes, fast alternation inside each flagged run): the mute
+            # depends on nothing but the flags, whichever criterion raised them. (A slew flag sits on the EARLIER sample of a jump, the last sample is
+            # never slew-flagged: runs touching the last sample cannot be reproduced this way and are skipped.)
+            if want.any() and not want[-1]:
+                z = np.zeros((nc2, ns))
+                level = 0.0
+                for t in range(ns):
+                    z[:, t] = level
+                    if want[t]:                      # jump between t and t + 1
+                        level = 4.0 if level <= 0 else -4.0
+                lim_s = 1.0 / fs                     # |jump| / fs >= v_per_sec  <=>  |jump| >= 1 for v_per_sec = 1 / fs ... jumps are 4 or 8
+                try:
+                    f3, m3 = V.saturation(z, 10.0, v_per_sec=lim_s, fs=fs, proportion=0.9, mute_window_samples=w)
+                    if np.array_equal(np.asarray(f3, bool), want):
+                        res.check(np.allclose(m3, mute, rtol=0, atol=1e-12), "mute:depends-on-criterion",
+                                  f"the same flags raised by the slew criterion alone give another mute gain than when raised by the amplitude criterion (max diff "
+                                  f"{np.max(np.abs(m3 - mute)):.3g}, taper width {w})", counter="slew_only_twins")
+                    else:
+                        res.count("slew_twin_flags_differ")
+                except Exception as e:
+                    res.exception("saturation:exception", e, "slew-only twin")
         if np.any(flags) and not np.all(flags):
             nt += 1
             sigs.add(sig)
